@@ -269,6 +269,14 @@ def canonImpl (toks : List String) (impl : String) : String :=
     (match impl.splitOn " " with
       | ["ok", x] => if x == "none" then impl else "ok " ++ ":".intercalate ((x.splitOn ":").take 3)
       | _ => impl)
+  | ["group", _, _, _, _] =>
+    -- members sorted by id (the SDK sorts the binary answer; the HTTP answer comes in the server's order)
+    (match impl.splitOn " " with
+      | ["ok", hd, ms] =>
+        let es := (ms.splitOn ",").map (fun e => (((e.splitOn "=").headD "").toNat?.getD 0, e))
+        let sorted := es.foldl (fun acc m => (acc.filter (·.1 < m.1)) ++ [m] ++ (acc.filter (·.1 ≥ m.1))) []
+        s!"ok {hd} " ++ ",".intercalate (sorted.map (·.2))
+      | _ => impl)
   | ["restart"] => if impl.startsWith "ok" then "ok" else impl     -- `ok <cache lengths>`; anything else: the server did not come back
   | "evict" :: _ => if impl.startsWith "ok" then "ok" else impl
   | _ => impl
